@@ -94,7 +94,7 @@ package cloudevents
 //@   ensures C18/missing-event-rejected: validConfig(f) && e == nil ==> err != nil && out == nil
 //@   ensures C18/empty-id-rejected: validConfig(f) && e != nil && typeis(e.Payload, ID) && purecall("ID.ID", e.Payload) == "" ==> err != nil && out == nil && calls("fn:Signer") == old(calls("fn:Signer"))
 //@   ensures C18/only-this-event-is-forwarded: out == nil || (out == e && err == nil)
-//@   ensures C18/forwarded-event-carries-the-cloudevent: out != nil ==> (storeKey(f) in e.Formatted) && content(e.Formatted[storeKey(f)]) == uf("append", 0, docOfFields(docIndent(f), uf("proj.id", storedDoc(f, e)), uf("url.String", f.Source), "1.0", e.Type, docData(e.Payload), docContentType(f), docSchema(f), e.CreatedAt, uf("proj.ser", storedDoc(f, e)), uf("proj.hm", storedDoc(f, e))))
+//@   ensures C18+C19/forwarded-event-carries-the-cloudevent: out != nil ==> (storeKey(f) in e.Formatted) && content(e.Formatted[storeKey(f)]) == uf("append", 0, docOfFields(docIndent(f), uf("proj.id", storedDoc(f, e)), uf("url.String", f.Source), "1.0", e.Type, docData(e.Payload), docContentType(f), docSchema(f), e.CreatedAt, uf("proj.ser", storedDoc(f, e)), uf("proj.hm", storedDoc(f, e))))
 //@   ensures C18/id-is-the-payloads-or-generated-and-never-empty: out != nil ==> uf("proj.id", storedDoc(f, e)) != "" && (typeis(e.Payload, ID) ==> uf("proj.id", storedDoc(f, e)) == purecall("ID.ID", e.Payload))
 //@   ensures C18/listed-types-are-signed-over-the-unsigned-document: out != nil && f.Signer != nil && listedForSigning(f, e.Type) ==> calls("fn:Signer") == old(calls("fn:Signer")) + 1 && uf("proj.ser", storedDoc(f, e)) == uf("base64", uf("append", 0, docOfFields(docIndent(f), uf("proj.id", storedDoc(f, e)), uf("url.String", f.Source), "1.0", e.Type, docData(e.Payload), docContentType(f), docSchema(f), e.CreatedAt, "", "")))
 //@   ensures C18/unlisted-types-are-never-signed: out != nil && !(f.Signer != nil && listedForSigning(f, e.Type)) ==> calls("fn:Signer") == old(calls("fn:Signer")) && uf("proj.ser", storedDoc(f, e)) == "" && uf("proj.hm", storedDoc(f, e)) == ""
